@@ -1,22 +1,48 @@
 import CbiVerif.PP.Analyse
-/-! Multi-file model: Platform (include search, memo, once-list), IncludeNode, ParserState.associate recursion, finder.find. -/
+/-! Multi-file model, building blocks: paths, `Platform` (include search, memo, once-list), the parse step
+`ParserState.insert_file`, `DirectiveParser.include_path`, database entries.
+
+The recursion of `ParserState.associate` through `#include` and the loops of `finder.find` are NOT defined here any more
+(they were the design-phase `partial def assocFile / visitW / visitListW` and `find`): the one executable multi-file
+engine is the total, fuelled, `Sem`-generic one of `Model/Exclude.lean` (`assocTree` / `assocTreeRef`, `runEntry`,
+`find`), which `Model/FindInst.lean` instantiates for the C family (`semPP`). -/
 namespace CbiVerif.PP
+
+/-! ### paths.  Structural definitions (no `String.splitOn` / `startsWith` / `intercalate`, whose well-founded
+recursion does not reduce in the kernel), so that runs of the multi-file models can be checked by `decide +kernel`.
+`Inc.normpathK / joinPathK / dirnameK` (`Model/FindInc.lean`) are the same functions (`C08.paths_agree`). -/
+def slashSplit : List Char → List Char → List (List Char)
+  | [], cur => [cur.reverse]
+  | c :: cs, cur => if c == '/' then cur.reverse :: slashSplit cs [] else slashSplit cs (c :: cur)
+
+def slashJoin : List String → String
+  | [] => ""
+  | [a] => a
+  | a :: rest => a ++ "/" ++ slashJoin rest
+
+/-- the `/`-separated components of a path (`p.split("/")`) -/
+def components (p : String) : List String := (slashSplit p.toList []).map String.ofList
 
 /-- os.path.normpath for absolute POSIX paths (lexical) -/
 def normpath (p : String) : String :=
-  let comps := p.splitOn "/"
-  let out := comps.foldl (fun (acc : List String) c =>
+  let out := (components p).foldl (fun (acc : List String) c =>
     if c == "" || c == "." then acc
     else if c == ".." then acc.dropLast
     else acc ++ [c]) []
-  "/" ++ "/".intercalate out
+  "/" ++ slashJoin out
 
-def joinPath (a b : String) : String := if b.startsWith "/" then b else if a.endsWith "/" then a ++ b else a ++ "/" ++ b
+/-- os.path.join -/
+def joinPath (a b : String) : String :=
+  if b.toList.head? == some '/' then b
+  else if a.toList.getLast? == some '/' then a ++ b
+  else a ++ "/" ++ b
+
+/-- os.path.dirname -/
 def dirname (p : String) : String :=
-  match (p.splitOn "/").dropLast with
+  match (components p).dropLast with
   | [] => ""
   | [""] => "/"
-  | l => "/".intercalate l
+  | l => slashJoin l
 
 /-- the file system as seen by the analysis: absolute canonical path ↦ text -/
 abbrev FSMap := List (String × String)
@@ -76,125 +102,10 @@ def includePath (ts : List Tok) : Option (String × Bool) :=
     else if t.kind == .str then some (t.text, false) else none
   | [] => none
 
-structure World where
-  st : PState
-  plat : Platform
-  taken : List Bool := []
-
-def evalCondW (w : World) (toks : List Tok) : Bool × World :=
-  match w.st.err with
-  | some _ => (false, w)
-  | none =>
-    match condValue w.plat.tbl toks with
-    | .ok b => (b, w)
-    | .error e => (false, { w with st := { w.st with err := some e } })
-
-mutual
-partial def assocFile (fs : FSMap) (file : String) (w : World) : World :=
-  match w.st.trees.find? (·.1 == file) with
-  | none => { w with st := { w.st with err := some (.other "no tree") } }
-  | some (_, (nodes, trees)) =>
-    let w' := visitListW fs file nodes { w with taken := [] } trees
-    { w' with taken := w.taken }
-partial def visitW (fs : FSMap) (file : String) (nodes : Array PNode) (w : World) : PTree → World
-  | .node idx kids =>
-    match w.st.err with
-    | some _ => w
-    | none =>
-      let n := nodes[idx]!
-      let w := { w with st := w.st.addAssoc file idx w.plat.name }
-      match n.kind with
-      | .code | .unrecognized => w
-      | .pragma =>
-        match n.toks with
-        | t :: _ => if t.spell == "once" && !w.plat.skip.contains file then { w with plat := { w.plat with skip := w.plat.skip ++ [file] } } else w
-        | [] => w
-      | .define =>
-        match makeMacro n.name n.margs n.toks with
-        | .ok m => if (w.plat.tbl.get n.name).isSome then w else { w with plat := { w.plat with tbl := w.plat.tbl ++ [(n.name, m)] } }
-        | .error e => { w with st := { w.st with err := some e } }
-      | .undef => { w with plat := { w.plat with tbl := w.plat.tbl.filter (·.1 != n.name) } }
-      | .include =>
-        -- literal or computed include
-        let lit := includePath n.toks
-        let resolved : Except Err (String × Bool) :=
-          match lit with
-          | some r => .ok r
-          | none =>
-            match runExpandT w.plat.tbl n.toks with
-            | .ok ts => match includePath ts with | some r => .ok r | none => .error (.parse "Invalid path.")
-            | .error e => .error e
-            | .sig s => .error (.other s)
-        match resolved with
-        | .error e => { w with st := { w.st with err := some e } }
-        | .ok (path, sys) =>
-          let (found, plat) := w.plat.findInclude fs path (dirname file) sys
-          let w := { w with plat := plat }
-          match found with
-          | none =>
-            let line := n.lines.headD 0
-            { w with st := { w.st with warns := w.st.warns ++ [if sys then .sysInclude file line path else .userInclude file line path] } }
-          | some inc =>
-            if w.plat.skip.contains inc then w
-            else
-              let w := { w with st := w.st.insertFile fs inc }
-              if w.st.err.isSome then w else assocFile fs inc w
-      | .endk => { w with taken := w.taken.tail }
-      | .ifk =>
-        let (a, w) := evalCondW w n.toks
-        let w := { w with taken := a :: w.taken }
-        if a then visitListW fs file nodes w kids else w
-      | .elifk =>
-        match w.taken with
-        | [] => { w with st := { w.st with err := some .index } }
-        | t :: ts =>
-          if t then w else
-            let (a, w) := evalCondW w n.toks
-            let w := { w with taken := a :: ts }
-            if a then visitListW fs file nodes w kids else w
-      | .elsek =>
-        match w.taken with
-        | [] => { w with st := { w.st with err := some .index } }
-        | t :: ts => if t then w else visitListW fs file nodes { w with taken := true :: ts } kids
-partial def visitListW (fs : FSMap) (file : String) (nodes : Array PNode) (w : World) : List PTree → World
-  | [] => w
-  | t :: ts => visitListW fs file nodes (visitW fs file nodes w t) ts
-end
-
 structure Entry where
   file : String
   defines : List String
   includePaths : List String
   includeFiles : List String
-
-/-- finder.find -/
-def find (fs : FSMap) (codebase : List String) (config : List (String × List Entry)) : PState := Id.run do
-  let mut st : PState := {}
-  for f in codebase do st := st.insertFile fs f
-  for (_, es) in config do for e in es do st := st.insertFile fs e.file
-  for (pname, es) in config do
-    for e in es do
-      if st.err.isSome then break
-      let mut plat : Platform := { name := pname, incPaths := e.includePaths }
-      let mut bad : Option Err := none
-      for d in e.defines do
-        match macroFromDefinitionString d with
-        | .ok m => if (plat.tbl.get m.name).isNone then plat := { plat with tbl := plat.tbl ++ [(m.name, m)] }
-        | .error er => bad := some er
-      if let some er := bad then
-        st := { st with err := some er }; break
-      let mut w : World := { st := st, plat := plat }
-      for inc in e.includeFiles do
-        let (found, p2) := w.plat.findInclude fs inc (dirname e.file) false
-        w := { w with plat := p2 }
-        match found with
-        | some f =>
-          if !w.plat.skip.contains f then
-            w := { w with st := w.st.insertFile fs f }
-            if w.st.err.isNone then w := assocFile fs f w
-        | none => pure ()
-      if w.st.err.isNone then w := assocFile fs e.file w
-      st := w.st
-  return st
 
 end CbiVerif.PP
